@@ -54,6 +54,16 @@ def getCollectionValue(collection, what):
         return None
 
 
+def getIndexValue(idx, pos):
+    if not idx.isInt():
+        raise CklRuntimeError(
+            ValueString("ERROR"),
+            f"Index must be an int but got {idx.type()}",
+            pos,
+        )
+    return idx.value
+
+
 def getFuncallString(fn, args):
     return f"{fn.name}({args.toStringAbbrev()})"
 
@@ -487,7 +497,7 @@ class NodeDeref:
                     self.pos,
                 )
             s = value.value
-            i = int(idx.value)
+            i = getIndexValue(idx, self.pos)
             if i < 0:
                 i = i + len(s)
             if i < 0 or i >= len(s):
@@ -504,7 +514,7 @@ class NodeDeref:
                     self.pos,
                 )
             lst = value.value
-            i = int(idx.value)
+            i = getIndexValue(idx, self.pos)
             if i < 0:
                 i = i + len(lst)
             if i < 0 or i >= len(lst):
@@ -568,7 +578,7 @@ class NodeDerefAssign:
 
         if container.isString():
             s = container.value
-            i = int(idx.value)
+            i = getIndexValue(idx, self.pos)
             if i < 0:
                 i = i + len(s)
             if i < 0 or i >= len(s):
@@ -580,7 +590,7 @@ class NodeDerefAssign:
 
         if container.isList():
             lst = container.value
-            i = int(idx.value)
+            i = getIndexValue(idx, self.pos)
             if i < 0:
                 i = i + len(lst)
             if i < 0 or i >= len(lst):
@@ -697,8 +707,8 @@ class NodeDerefSlice:
 
         if value.isString():
             s = value.value
-            start = int(start.value)
-            end = int(end.value) if end else len(s)
+            start = getIndexValue(start, self.pos)
+            end = getIndexValue(end, self.pos) if end else len(s)
             if start < 0:
                 start += len(s)
             if end < 0:
@@ -713,8 +723,8 @@ class NodeDerefSlice:
 
         if value.isList():
             lst = value.value
-            start = int(start.value)
-            end = int(end.value) if end else len(lst)
+            start = getIndexValue(start, self.pos)
+            end = getIndexValue(end, self.pos) if end else len(lst)
             if start < 0:
                 start += len(lst)
             if end < 0:
